@@ -1,6 +1,6 @@
 #!/bin/bash
 # usage: tools_seed_regress.sh [seed-dir-name ...]
-# Regression suite for the checks themselves: every seeded change under seeded/ is applied to a scratch
+# Regression suite for the checks themselves (check = meta.json regress_check, default the seed's property): every seeded change under seeded/ is applied to a scratch
 # worktree of /repo (never /repo itself) and the quick check of its property must exit 1 with a VIOLATION
 # line.  Prints one line per seed; exit 1 if a seed is not reported.  Scratch output is removed.
 cd /verif
@@ -8,7 +8,7 @@ names=("$@"); [ ${#names[@]} -eq 0 ] && names=($(ls seeded))
 miss=0
 for n in "${names[@]}"; do
   [ -f "seeded/$n/patch.diff" ] || continue
-  pid=$(/venv/bin/python -c "import json;print(json.load(open('seeded/$n/meta.json'))['property'])")
+  pid=$(/venv/bin/python -c "import json;m=json.load(open('seeded/$n/meta.json'));print(m.get('regress_check') or m['property'])")
   out=$(./tools_mutant.sh "seeded/$n/patch.diff" quick "$pid" 2>&1)
   line=$(echo "$out" | grep "^$pid exit=")
   logs=$(echo "$out" | sed -n 's/^logs: //p')
